@@ -45,9 +45,11 @@ theorem processLine_hdrs {cfg : Px.Parser.Cfg} {p q : Parser} {raw r : Bytes} {m
     · split at h
       · split at h
         · simp at h
-        · simp only [Except.ok.injEq, Prod.mk.injEq] at h
-          rw [← h.1]
-          exact setLineAttributes_hdrs _ _ _
+        · split at h
+          · simp at h
+          · simp only [Except.ok.injEq, Prod.mk.injEq] at h
+            rw [← h.1]
+            exact setLineAttributes_hdrs _ _ _
       · simp at h
     · split at h
       · simp only [Except.ok.injEq, Prod.mk.injEq] at h; rw [← h.1]
